@@ -7,6 +7,8 @@ use std::cell::{Cell, UnsafeCell};
 
 pub const MAX_INCREASE: usize = 10240;
 pub const CANARY: usize = 12 * 1024;
+/// guard in front of the data (a pointer shifted the wrong way writes here, not into the heap)
+pub const FRONT: usize = 4 * 1024;
 pub const CANARY_BYTE: u8 = 0xEE;
 
 pub struct Access {
@@ -30,9 +32,12 @@ impl DataMutDrop for Guard {}
 impl Access {
     pub fn new(initial: &[u8], refuse: Vec<u32>) -> Access {
         let orig = initial.len();
-        let mut v = vec![0u8; orig + MAX_INCREASE + CANARY];
-        v[..orig].copy_from_slice(initial);
-        for b in &mut v[orig + MAX_INCREASE..] {
+        let mut v = vec![0u8; FRONT + orig + MAX_INCREASE + CANARY];
+        v[FRONT..FRONT + orig].copy_from_slice(initial);
+        for b in &mut v[FRONT + orig + MAX_INCREASE..] {
+            *b = CANARY_BYTE;
+        }
+        for b in &mut v[..FRONT] {
             *b = CANARY_BYTE;
         }
         Access {
@@ -53,7 +58,7 @@ impl Access {
         self.len.get()
     }
     fn base(&self) -> *mut u8 {
-        unsafe { (*self.buf.get()).as_mut_ptr() }
+        unsafe { (*self.buf.get()).as_mut_ptr().add(FRONT) }
     }
     /// copy of data[0..len)
     pub fn bytes(&self) -> Vec<u8> {
@@ -61,7 +66,8 @@ impl Access {
     }
     pub fn canary_ok(&self) -> bool {
         let s = unsafe { std::slice::from_raw_parts(self.base().add(self.cap()), CANARY) };
-        s.iter().all(|b| *b == CANARY_BYTE)
+        let f = unsafe { std::slice::from_raw_parts(self.base().sub(FRONT), FRONT) };
+        s.iter().all(|b| *b == CANARY_BYTE) && f.iter().all(|b| *b == CANARY_BYTE)
     }
     pub fn begin_op(&self) {
         self.refused_now.set(false);
